@@ -467,30 +467,89 @@ pub fn run(a: &Args) -> i32 {
     let _ = std::fs::create_dir_all(&root);
     let cnt = Counters::default();
     let cases = a.tier.pick(240, 4000);
-    let found: Mutex<Vec<(J, Problem)>> = Mutex::new(vec![]);
     let samples: Mutex<Vec<J>> = Mutex::new(vec![]);
     let thorough = a.tier == crate::evidence::Tier::Thorough;
-    par_for(cases, |i| {
-        let seed = a.seed.wrapping_mul(0xD6E8_FEB8_6659_FD93).wrapping_add(i as u64 * 4099 + 1);
-        let c = gen_case(seed, thorough);
-        let p = run_case(&c, &root, &cnt, None);
-        if i % 64 == 0 {
-            samples.lock().unwrap().push(json!({"seed": seed, "ts_order": c.ts_order, "shape": c.shape, "ops": c.nops, "problem": p.as_ref().map(|p| p.class)}));
-        }
-        if let Some(p) = p {
-            found.lock().unwrap().push((json!({"engine": "c18", "seed": seed, "thorough": thorough, "step": p.step}), p));
+    // The sequences run in shard subprocesses: a tree whose structure went wrong can recurse
+    // without end or abort, which no in-process guard catches. A shard that dies is restarted
+    // behind the sequence it was running, and that sequence is reported.
+    let nshards = 16usize;
+    let found: Mutex<Vec<(String, String, J)>> = Mutex::new(vec![]);
+    let all_shapes: Mutex<BTreeSet<String>> = Mutex::new(BTreeSet::new());
+    let exe = std::env::current_exe().unwrap();
+    par_for(nshards, |k| {
+        let mut from = 0usize;
+        loop {
+            let mut ch = match std::process::Command::new(&exe)
+                .arg("c18-shard")
+                .arg(a.seed.to_string())
+                .arg(a.tier.name())
+                .arg(k.to_string())
+                .arg(nshards.to_string())
+                .arg(cases.to_string())
+                .arg(from.to_string())
+                .stdout(std::process::Stdio::piped())
+                .stderr(std::process::Stdio::null())
+                .spawn()
+            {
+                Ok(c) => c,
+                Err(_) => return,
+            };
+            let out = std::io::BufReader::new(ch.stdout.take().unwrap());
+            let mut started: Option<(usize, u64)> = None;
+            let mut finished = false;
+            use std::io::BufRead;
+            for l in out.lines().map_while(Result::ok) {
+                if let Some(rest) = l.strip_prefix("START ") {
+                    let mut it = rest.split(' ');
+                    started = Some((it.next().and_then(|x| x.parse().ok()).unwrap_or(0), it.next().and_then(|x| x.parse().ok()).unwrap_or(0)));
+                } else if let Some(rest) = l.strip_prefix("DONE ") {
+                    if let Ok(j) = serde_json::from_str::<J>(rest) {
+                        if !j["problem"].is_null() {
+                            found.lock().unwrap().push((j["problem"]["class"].as_str().unwrap_or("?").to_string(), format!("step {}: {}", j["problem"]["step"], j["problem"]["what"].as_str().unwrap_or("")), json!({"engine": "c18", "seed": j["seed"], "thorough": thorough})));
+                        }
+                        if j["i"].as_u64().unwrap_or(1) % 64 == 0 {
+                            samples.lock().unwrap().push(j.clone());
+                        }
+                    }
+                    started = None;
+                } else if let Some(rest) = l.strip_prefix("STATS ") {
+                    if let Ok(j) = serde_json::from_str::<J>(rest) {
+                        cnt.ops.fetch_add(j["ops"].as_u64().unwrap_or(0), Ordering::Relaxed);
+                        cnt.reopens.fetch_add(j["reopens"].as_u64().unwrap_or(0), Ordering::Relaxed);
+                        cnt.censuses.fetch_add(j["censuses"].as_u64().unwrap_or(0), Ordering::Relaxed);
+                        cnt.overflow_seen.fetch_add(j["overflow_seen"].as_u64().unwrap_or(0), Ordering::Relaxed);
+                        cnt.free_reuse_seen.fetch_add(j["free_reuse_seen"].as_u64().unwrap_or(0), Ordering::Relaxed);
+                        cnt.max_pages.fetch_max(j["max_pages"].as_u64().unwrap_or(0), Ordering::Relaxed);
+                        for sh in j["shapes"].as_array().cloned().unwrap_or_default() {
+                            all_shapes.lock().unwrap().insert(sh.as_str().unwrap_or("").to_string());
+                        }
+                    }
+                    finished = true;
+                }
+            }
+            let status = ch.wait().ok();
+            if finished {
+                return;
+            }
+            match started {
+                Some((i, seed)) => {
+                    found.lock().unwrap().push(("process_died".into(), format!("the process running operation sequence #{} died ({:?}): the tree recursed without end, aborted or was killed", i, status), json!({"engine": "c18", "seed": seed, "thorough": thorough})));
+                    from = i + 1;
+                }
+                None => return,
+            }
         }
     });
     let found = found.into_inner().unwrap();
-    let mut reported: BTreeMap<&'static str, usize> = BTreeMap::new();
-    for (rep, p) in &found {
-        let k = reported.entry(p.class).or_insert(0);
+    let mut reported: BTreeMap<String, usize> = BTreeMap::new();
+    for (class, what, rep) in &found {
+        let k = reported.entry(class.clone()).or_insert(0);
         *k += 1;
         if *k <= 3 {
-            run.violation(&format!("[{}] step {}: {}", p.class, p.step, p.what), rep.clone());
+            run.violation(&format!("[{}] {}", class, what), rep.clone());
         }
     }
-    let shapes = cnt.shapes.lock().unwrap().len() as u64;
+    let shapes = all_shapes.lock().unwrap().len() as u64;
     run.cov("operation_sequences", json!(cases));
     run.cov("operations", json!(cnt.ops.load(Ordering::Relaxed)));
     run.cov("reopens", json!(cnt.reopens.load(Ordering::Relaxed)));
@@ -511,6 +570,46 @@ pub fn run(a: &Args) -> i32 {
         "one evaluation = one operation (insert / overwrite / delete / get / bounded range scan / seek + steps of the internal iterator / close + reopen / page census) whose result is compared with an ordered map under the same comparator; census invariants: no page reachable twice, none outside the file, none unaccounted (leak), header free count = pages listed in trunk pages, leaves hold exactly the map's keys, leaf chain = left-to-right leaf order; distinct = distinct tree-shape signatures seen by the census (order, internal / leaf / overflow / free / trunk page counts, bucketed)",
         samples.into_inner().unwrap(),
     )
+}
+
+/// `vharness c18-shard <seed> <tier> <k> <n> <cases> <from>`
+pub fn shard_main(args: &[String]) -> i32 {
+    crate::panics::install();
+    let seed0: u64 = args[0].parse().unwrap_or(1);
+    let thorough = args[1] == "thorough";
+    let k: usize = args[2].parse().unwrap_or(0);
+    let n: usize = args[3].parse().unwrap_or(1);
+    let cases: usize = args[4].parse().unwrap_or(0);
+    let from: usize = args[5].parse().unwrap_or(0);
+    let root = crate::e1::scratch_root();
+    let _ = std::fs::create_dir_all(&root);
+    let cnt = Counters::default();
+    use std::io::Write;
+    let out = std::io::stdout();
+    for i in from..cases {
+        if i % n != k {
+            continue;
+        }
+        let seed = seed0.wrapping_mul(0xD6E8_FEB8_6659_FD93).wrapping_add(i as u64 * 4099 + 1);
+        {
+            let mut o = out.lock();
+            let _ = writeln!(o, "START {} {}", i, seed);
+            let _ = o.flush();
+        }
+        let c = gen_case(seed, thorough);
+        let p = run_case(&c, &root, &cnt, None);
+        let mut o = out.lock();
+        let _ = writeln!(o, "DONE {}", json!({"i": i, "seed": seed, "ts_order": c.ts_order, "shape": c.shape, "ops": c.nops, "problem": p.as_ref().map(|p| json!({"class": p.class, "step": p.step, "what": p.what}))}));
+        let _ = o.flush();
+    }
+    println!(
+        "STATS {}",
+        json!({"ops": cnt.ops.load(Ordering::Relaxed), "reopens": cnt.reopens.load(Ordering::Relaxed), "censuses": cnt.censuses.load(Ordering::Relaxed),
+               "overflow_seen": cnt.overflow_seen.load(Ordering::Relaxed), "free_reuse_seen": cnt.free_reuse_seen.load(Ordering::Relaxed),
+               "max_pages": cnt.max_pages.load(Ordering::Relaxed), "shapes": cnt.shapes.lock().unwrap().iter().cloned().collect::<Vec<_>>()})
+    );
+    let _ = std::fs::remove_dir_all(&root);
+    0
 }
 
 pub fn replay(j: &J) -> i32 {
